@@ -267,4 +267,26 @@ theorem readFrame_exact (bytes : List UInt8) (f : Frame) (rest : List UInt8)
                 unfold u32OfBytes; omega
   · cases h
 
+/-- Whatever bytes arrive: the whole frames the reader loop returns are, re-encoded and concatenated, exactly the
+beginning of those bytes — every returned frame is a contiguous, exact slice of what the peer sent. -/
+theorem readFrames_exact (bytes : List UInt8) :
+    ∃ rest, bytes = encodeAll (readFrames bytes).1 ++ rest := by
+  induction bytes using readFrames.induct with
+  | case1 bytes f rest hf hlt fs t hfs ih =>
+    obtain ⟨rest', hr⟩ := ih
+    rw [readFrames_frame hf]
+    refine ⟨rest', ?_⟩
+    have := (readFrame_exact bytes f rest hf).1
+    simp only [encodeAll, List.flatMap_cons, List.append_assoc]
+    rw [this]
+    congr 1
+  | case2 bytes hf =>
+    rw [readFrames_stop (by intro f rest; rw [hf]; simp)]; exact ⟨bytes, by simp [encodeAll]⟩
+  | case3 bytes n hf =>
+    rw [readFrames_stop (by intro f rest; rw [hf]; simp)]; exact ⟨bytes, by simp [encodeAll]⟩
+  | case4 bytes m l hf =>
+    rw [readFrames_stop (by intro f rest; rw [hf]; simp)]; exact ⟨bytes, by simp [encodeAll]⟩
+  | case5 bytes w hf =>
+    rw [readFrames_stop (by intro f rest; rw [hf]; simp)]; exact ⟨bytes, by simp [encodeAll]⟩
+
 end ScyllaVerif.FrameStream
